@@ -4,6 +4,7 @@ from pvrules.rules import PURE, SELF_FIELD, const_int, count_range, effect_calls
 from . import atomics_common as ac
 from . import local_common as lc
 from . import vec_common as vc
+from . import controls
 
 LEVEL = "other"
 EXPLANATION = ("Static MIR rules over src/atomic64.rs, src/value.rs, src/counter.rs: single-cell representation (R1), exactly one atomic "
@@ -99,6 +100,7 @@ def run(ctx):
     loops = ctx.run_rule("R2", lambda c: ac.rule_R2_one_access(c, f)) or []
     ctx.run_rule("R3", lambda c: ac.rule_R3_cas_loop(c, f, loops))
     ctx.run_rule("R4", lambda c: ac.rule_R4_no_nonatomic_rmw(c, [f]))
+    ctx.run_rule("R4", lambda c: controls.control_rmw(c, "R4"))
     ctx.run_rule("R5", lambda c: rule_R5(c, f))
     ctx.run_rule("R6", lambda c: lc.rule_local_counter(c, f, "R6"))
     ctx.run_rule("R7", lambda c: rule_R7(c, f))
